@@ -39,7 +39,7 @@ CONFLICT = [('maxsize', 'mincost'), ('mincost', 'maxsize'), ('lsb', 'maxsize'), 
 
 def tasks(tier, seed):
     rng = random.Random(seed + 404)
-    shs = shapes.shape_set(tier, seed, quick_n=14, thorough_n=120)
+    shs = [s for s in shapes.shape_set(tier, seed, quick_n=14, thorough_n=120) if not lpchecks.is_wide(s)]
     names = [c for c, _ in SINGLES]
     allpairs = [(a, b) for a in names for b in names if a != b]
     out = []
